@@ -33,7 +33,7 @@ func init() { core.Register(prop{}) }
 func (prop) ID() string    { return "C16" }
 func (prop) Level() string { return "exploration" }
 func (prop) Rule() string {
-	return "scenario = one agent session over the real Disco transport carrying 1..4 multiplexed virtual connections (hello, 0..20 data messages of 0..4000 stamped bytes, eof), all interleavings of the per-connection sequences for 2x4 messages (70) and (thorough) 3x3 (1680), seeded interleavings beyond, UDP relay messages, unknown and duplicate connection ids, agent disconnect mid-stream, and a seeded subset in which the yield point parks the service's reader between its buffer check and its wait while data and EOF arrive; plus codec round trips of every message type against an independent encoder/decoder (IPv4/IPv6, all 65,536 ports, payload lengths 0..65000). Non-trivial = a session in which >=1 virtual connection delivered bytes to the service; distinct by scenario parameters. Also connections that share one remote ip:port and differ in the local port (same-remote). One seeded scenario in six opens a shadow session: a second agent on the same listener announces the same address pair as the judged session's first connection and sends data of its own. 16 (thorough 120) scenarios address a second stub service that leaves a 5 ms write deadline behind at the start and after every write: their end-of-stream messages, or the agent's disconnect, arrive after those deadlines have passed. udp-late-replies: 2-4 datagrams from distinct peers sent back to back to a service that answers 40 ms late; every datagram that comes back must carry the addresses of the datagram whose content it answers. large-service-write: the service answers the first bytes with one single Write of 65536, 70000 or 200000 bytes, which must come back complete and in order. late-data-after-service-close: the service ends connection 0 itself after its first bytes; once the agent has its EOF it sends two more data messages for it and goes on with connection 1."
+	return "scenario = one agent session over the real Disco transport carrying 1..4 multiplexed virtual connections (hello, 0..20 data messages of 0..4000 stamped bytes, eof), all interleavings of the per-connection sequences for 2x4 messages (70) and (thorough) 3x3 (1680), seeded interleavings beyond, UDP relay messages, unknown and duplicate connection ids, agent disconnect mid-stream, and a seeded subset in which the yield point parks the service's reader between its buffer check and its wait while data and EOF arrive; plus codec round trips of every message type against an independent encoder/decoder (IPv4/IPv6, all 65,536 ports, payload lengths 0..65000). Non-trivial = a session in which >=1 virtual connection delivered bytes to the service; distinct by scenario parameters. Also connections that share one remote ip:port and differ in the local port (same-remote). One seeded scenario in six opens a shadow session: a second agent on the same listener announces the same address pair as the judged session's first connection and sends data of its own. 16 (thorough 120) scenarios address a second stub service that leaves a 5 ms write deadline behind at the start and after every write: their end-of-stream messages, or the agent's disconnect, arrive after those deadlines have passed. udp-late-replies: 2-4 datagrams from distinct peers sent back to back to a service that answers 40 ms late; every datagram that comes back must carry the addresses of the datagram whose content it answers. large-service-write: the service answers the first bytes with one single Write of 65536, 70000 or 200000 bytes, which must come back complete and in order. reannounced-address-pair: connection 0 is announced and ended by the agent, and once its service has seen the end the same address pair is announced again (port reuse) with data and an end-of-stream of its own, next to a second connection. late-data-after-service-close: the service ends connection 0 itself after its first bytes; once the agent has its EOF it sends two more data messages for it and goes on with connection 1."
 }
 func (prop) Assumptions() []string {
 	return []string{"the scripted agent frames messages exactly as the real agent does (type, length, body as three writes)", "termination is judged on content after the connection ended: a service-side EOF before all announced bytes were delivered is the loss witness"}
@@ -337,6 +337,27 @@ func scenarios(tier string, seed int64) []scenario {
 		}
 		out = append(out, sc)
 	}
+	// port reuse: connection 0 is announced, ended by the agent (with or without bytes of another connection in
+	// between) and, once its service has seen the end, announced again with the same address pair; the bytes that
+	// follow belong to the new connection, and so does the end-of-stream message after them
+	nr := 8
+	if tier == "thorough" {
+		nr = 80
+	}
+	for i := 0; i < nr; i++ {
+		sc := scenario{Conns: 2, Kind: "reannounced-address-pair", SameRemote: i%4 >= 2}
+		sc.Msgs = []msg{{0, "pre-hello", 0}, {1, "hello", 0}, {1, "data", 10 + i}}
+		if i%2 == 1 {
+			sc.Msgs = []msg{{1, "hello", 0}, {1, "data", 10 + i}, {0, "pre-hello", 0}}
+		}
+		sc.Msgs = append(sc.Msgs, msg{0, "pre-eof", 0}, msg{0, "hello", 0}, msg{0, "data", 20 + i}, msg{1, "data", 30 + i}, msg{0, "data", 1 + i%3*1000})
+		if i%3 == 0 {
+			sc.Msgs = append(sc.Msgs, msg{0, "eof", 0}, msg{1, "data", 40 + i}, msg{1, "eof", 0})
+		} else {
+			sc.Msgs = append(sc.Msgs, msg{1, "eof", 0}, msg{0, "eof", 0})
+		}
+		out = append(out, sc)
+	}
 	nb := 6
 	if tier == "thorough" {
 		nb = 40
@@ -558,6 +579,7 @@ func runScenario(k int, sc scenario, listen string, key []byte) scnObs {
 	seq := make([]int, sc.Conns)
 	eofSent := make([]bool, sc.Conns)
 	helloSent := make([]bool, sc.Conns)
+	pre := make([]int, sc.Conns) // earlier connections with the same address pair, announced and ended before
 	expired := false
 	udpSeq := 0
 	sentUDP := map[string][]string{}
@@ -616,6 +638,26 @@ func runScenario(k int, sc scenario, listen string, key []byte) scnObs {
 				time.Sleep(60 * time.Millisecond) // let the listener process data and EOF while the reader is parked
 				close(gate)
 			}
+		case "pre-hello":
+			l, r := addrOfSc(sc, k, m.Conn, false)
+			a.send(tHello, encAddr(encAddr(nil, l.Proto, l.IP, l.Port), r.Proto, r.IP, r.Port))
+			pre[m.Conn]++
+		case "pre-eof":
+			// ends the earlier connection with this address pair and waits until its service has seen the end
+			l, r := addrOfSc(sc, k, m.Conn, false)
+			a.send(tEOF, encAddr(encAddr(nil, l.Proto, l.IP, l.Port), r.Proto, r.IP, r.Port))
+			rs, ls := (&net.TCPAddr{IP: r.IP, Port: r.Port}).String(), (&net.TCPAddr{IP: l.IP, Port: l.Port}).String()
+			for dl := time.Now().Add(3 * time.Second); time.Now().Before(dl); time.Sleep(time.Millisecond) {
+				ended := false
+				for _, call := range lab.Stubs.Snapshot() {
+					if call.Remote == rs && call.Local == ls && call.Done {
+						ended = true
+					}
+				}
+				if ended {
+					break
+				}
+			}
 		case "wait-eof":
 			l, r := addrOfSc(sc, k, m.Conn, false)
 			key := l.String() + "|" + r.String()
@@ -661,12 +703,14 @@ func runScenario(k int, sc scenario, listen string, key []byte) scnObs {
 			}
 			lw, r := addrOfSc(sc, k, ci, false)
 			var call *lab.StubCall
+			surfaced := 0
 			for i := range calls {
 				if calls[i].Remote == (&net.TCPAddr{IP: r.IP, Port: r.Port}).String() && calls[i].Local == (&net.TCPAddr{IP: lw.IP, Port: lw.Port}).String() && !bytes.HasPrefix(calls[i].Data, []byte("SHADOW|")) {
 					call = &calls[i]
+					surfaced++
 				}
 			}
-			if call == nil {
+			if call == nil || surfaced < 1+pre[ci] {
 				return false
 			}
 			if eofSent[ci] && !call.Done {
@@ -1074,10 +1118,18 @@ func (prop) Judge(b core.Batch, recs []core.Rec, exits []core.Exit) []core.Resul
 				if !helloed {
 					continue
 				}
+				announced := 1 // plus the earlier connections with the same address pair (announced and ended before)
+				for _, m := range sc.Msgs {
+					if m.Conn == ci && m.Kind == "pre-hello" {
+						announced++
+					}
+				}
 				switch {
 				case c.Calls == 0:
 					fail("connection-not-surfaced", fmt.Sprintf("virtual connection %d (%s) was announced but no service saw it", ci, c.Announced))
-				case c.Calls > 1:
+				case c.Calls < announced:
+					fail("connection-not-surfaced|"+sc.Kind, fmt.Sprintf("address pair %s was announced %d times (each after the end of the one before), services saw %d connections", c.Announced, announced, c.Calls))
+				case c.Calls > announced:
 					fail("connection-surfaced-twice", fmt.Sprintf("virtual connection %d was surfaced %d times", ci, c.Calls))
 				case !c.ReadOK && c.Done:
 					cls := "lost-or-wrong-bytes"
